@@ -198,9 +198,25 @@ def audit_props(prop, cfg):
         body = m.group(2).strip()
         if not re.fullmatch(r"exact\s+\(?[\w.@ ]+\)?\s*\.", body):
             problems.append(f"theorem {m.group(1)}: proof is not a single `exact`")
-    rc, out = coq_run_file(vfile, 1200)
-    if rc != 0:
-        return theorems, {}, [f"Props/{prop}.v does not compile: {out[-600:]}"]
+    # Print Assumptions on interval-based proofs costs seconds per theorem: cache the compiler output,
+    # keyed by the sources of the whole development and the regenerated tables
+    h = hashlib.sha1()
+    for f in sorted(glob.glob(os.path.join(COQ, "theories", "**", "*.v"), recursive=True)) + [os.path.join(GEN, "TablesCur.v")]:
+        h.update(f.encode())
+        h.update(open(f, "rb").read())
+    key = h.hexdigest()
+    cache = os.path.join(BUILD, "audit", prop + ".json")
+    out = None
+    if os.path.exists(cache):
+        c = json.load(open(cache))
+        if c.get("key") == key:
+            out = c["out"]
+    if out is None:
+        rc, out = coq_run_file(vfile, 2400)
+        if rc != 0:
+            return theorems, {}, [f"Props/{prop}.v does not compile: {out[-600:]}"]
+        os.makedirs(os.path.dirname(cache), exist_ok=True)
+        json.dump({"key": key, "out": out}, open(cache, "w"))
     # split output into one block per Print Assumptions (in order)
     blocks = re.split(r"(?=^Closed under the global context|^Axioms:)", out, flags=re.M)
     blocks = [b for b in blocks if b.startswith("Closed under") or b.startswith("Axioms:")]
@@ -212,7 +228,7 @@ def audit_props(prop, cfg):
         if b.startswith("Closed under"):
             axioms[name] = []
             continue
-        names = re.findall(r"^([A-Za-z_][\w.']*)\s*:", b, re.M)
+        names = [n for n in re.findall(r"^([A-Za-z_][\w.']*)\s*:", b, re.M) if n != "Axioms"]
         axioms[name] = names
         for a in names:
             if a not in allow and not any(a.startswith(p) for p in ("PrimInt63.", "PrimFloat.", "Uint63.", "FloatAxioms.", "PrimInt63", "Sint63.")):
